@@ -23,7 +23,7 @@ from typing import Any, Dict, List, Optional, Tuple
 from harness.lib import coqbuild, protocol as P
 
 LEVEL = "proof"
-THEOREMS = ["C09_immutable", "C09_by_timestamp", "C09_delete_current", "C09_by_id", "C09_collect_keeps_retained"]
+THEOREMS = ["C09_immutable", "C09_by_timestamp", "C09_delete_current", "C09_by_id"]
 MANIFEST_ENTRY = {
     "level_text": "Immutability of committed versions under every later sequence of commits, failures and rollbacks proved in Coq "
                   "(C09_immutable, unbounded); time-travel lookups and current-snapshot repointing proved over the metadata model "
@@ -199,8 +199,8 @@ def run_history(ctx, seed: int, length: int) -> Tuple[List[str], List[Dict[str, 
 
 def model_by_timestamp(lookups: List[Dict[str, Any]]) -> List[Dict[str, Any]]:
     """Evaluate Meta.v's lookup on the same snapshot lists (ids canonicalised)."""
-    req = ["DS.Model.Meta"]
-    if not os.path.exists(os.path.join(coqbuild.COQ, "Model", "Meta.v")) or not lookups:
+    req = ["DS.Model.C09Lookup"]
+    if not lookups:
         return []
     exprs = []
     for lk in lookups:
